@@ -26,16 +26,20 @@ use bitcoin::absolute::LockTime;
 use bitcoin::secp256k1::Secp256k1;
 use bitcoin::{Amount, OutPoint, ScriptBuf, Transaction, TxOut, Txid};
 
+use lightning::chain::chaininterface::{BroadcasterInterface, ConfirmationTarget, FeeEstimator, TransactionType};
 use lightning::chain::channelmonitor::{Balance, BalanceSource, ANTI_REORG_DELAY};
+use lightning::chain::{BlockLocator, Listen};
 use lightning::chain::verif_hooks_package::monitor_known_preimages;
 use lightning::events::bump_transaction::BumpTransactionEvent;
 use lightning::events::Event;
 use lightning::ln::chan_utils::shared_anchor_script_pubkey;
 use lightning::ln::channelmanager::{PaymentId, BREAKDOWN_TIMEOUT};
 use lightning::ln::functional_test_utils::*;
-use lightning::ln::msgs::{BaseMessageHandler, ChannelMessageHandler};
+use lightning::ln::msgs::{BaseMessageHandler, ChannelMessageHandler, MessageSendEvent};
 use lightning::ln::outbound_payment::RecipientOnionFields;
-use lightning::sign::{OutputSpender, SpendableOutputDescriptor};
+use lightning::sign::{ChangeDestinationSourceSync, OutputSpender, SpendableOutputDescriptor};
+use lightning::util::sweep::{OutputSpendStatus, OutputSweeperSync};
+use lightning::util::test_utils::TestStore;
 use lightning::types::payment::{PaymentHash, PaymentPreimage};
 use lightning::util::wallet_utils::WalletSourceSync;
 use lightning::{get_local_commitment_txn, get_route_and_payment_hash};
@@ -43,10 +47,34 @@ use verif_harness::Rng;
 
 static PANIC_MSG: Mutex<String> = Mutex::new(String::new());
 
+/// Broadcaster handed to the `OutputSweeper`: only collects.
+struct SweepBroadcaster(Mutex<Vec<Transaction>>);
+impl BroadcasterInterface for SweepBroadcaster {
+	fn broadcast_transactions(&self, txs: &[(&Transaction, TransactionType)]) {
+		for (tx, _) in txs {
+			self.0.lock().unwrap().push((*tx).clone());
+		}
+	}
+}
+struct FixedFee;
+impl FeeEstimator for FixedFee {
+	fn get_est_sat_per_1000_weight(&self, _: ConfirmationTarget) -> u32 {
+		253
+	}
+}
+struct ChangeDest(ScriptBuf);
+impl ChangeDestinationSourceSync for ChangeDest {
+	fn get_change_destination_script(&self) -> Result<ScriptBuf, ()> {
+		Ok(self.0.clone())
+	}
+}
+
 #[derive(Clone, Copy, PartialEq, Eq, Debug)]
 enum Know {
 	Never,
 	BeforeClose,
+	/// as soon as the commitment has been broadcast (not yet confirmed)
+	OnBroadcast,
 	After(u32),
 }
 
@@ -188,6 +216,14 @@ impl World {
 	}
 }
 
+fn desc_op(d: &SpendableOutputDescriptor) -> OutPoint {
+	match d {
+		SpendableOutputDescriptor::StaticOutput { outpoint, .. } => outpoint.into_bitcoin_outpoint(),
+		SpendableOutputDescriptor::DelayedPaymentOutput(x) => x.outpoint.into_bitcoin_outpoint(),
+		SpendableOutputDescriptor::StaticPaymentOutput(x) => x.outpoint.into_bitcoin_outpoint(),
+	}
+}
+
 fn short(op: &OutPoint) -> String {
 	format!("{}:{}", &op.txid.to_string()[..8], op.vout)
 }
@@ -228,6 +264,8 @@ struct Cfg {
 	explicit_close: bool,
 	styles: [usize; 2],
 	n_htlcs: usize,
+	mpp_parts: usize,
+	second_chan: bool,
 }
 
 fn describe(c: &Cfg, htlcs: &[Htlc]) -> String {
@@ -245,8 +283,10 @@ fn describe(c: &Cfg, htlcs: &[Htlc]) -> String {
 		})
 		.collect();
 	format!(
-		"{{\"chan_type\":{},\"closer\":{},\"prev_commitment\":{},\"explicit_close\":{},\"styles\":[{},{}],\"htlcs\":[{}]}}",
+		"{{\"chan_type\":{},\"mpp_parts\":{},\"second_chan\":{},\"closer\":{},\"prev_commitment\":{},\"explicit_close\":{},\"styles\":[{},{}],\"htlcs\":[{}]}}",
 		c.chan_type,
+		c.mpp_parts,
+		c.second_chan,
 		c.closer,
 		c.prev,
 		c.explicit_close,
@@ -280,7 +320,14 @@ fn scenario(seed: u64, mode_thorough: bool, trace: bool, descr: &mut String) -> 
 		explicit_close: rng.below(2) == 0,
 		styles: [rng.below(11) as usize, rng.below(11) as usize],
 		n_htlcs: rng.below(n_max + 1) as usize,
+		mpp_parts: 0,
+		second_chan: false,
 	};
+	// independent stream for the features added later (keeps the older draws stable)
+	let mut rx = Rng(seed.wrapping_mul(0xA24B_AED4_963E_E407) ^ 0x5EC0D);
+	let mut cfg = cfg;
+	cfg.mpp_parts = if rx.below(3) == 0 { 0 } else { 2 + rx.below(3) as usize };
+	cfg.second_chan = rx.below(2) == 0;
 	let mut chanmon_cfgs = create_chanmon_cfgs(2);
 	chanmon_cfgs[0].keys_manager.disable_revocation_policy_check = true;
 	chanmon_cfgs[1].keys_manager.disable_revocation_policy_check = true;
@@ -337,6 +384,84 @@ fn scenario(seed: u64, mode_thorough: bool, trace: bool, descr: &mut String) -> 
 			connect_blocks(&nodes[1], k);
 		}
 	}
+	// messages between the two nodes until quiescence (commitment dances, holding-cell releases)
+	let pump = || {
+		for _ in 0..40 {
+			let mut any = false;
+			for i in 0..2 {
+				let j = 1 - i;
+				for ev in nodes[i].node.get_and_clear_pending_msg_events() {
+					match ev {
+						MessageSendEvent::UpdateHTLCs { updates, .. } => {
+							any = true;
+							for m in updates.update_add_htlcs.iter() {
+								nodes[j].node.handle_update_add_htlc(ids[i], m);
+							}
+							nodes[j].node.handle_commitment_signed_batch_test(ids[i], &updates.commitment_signed);
+						},
+						MessageSendEvent::SendRevokeAndACK { msg, .. } => {
+							any = true;
+							nodes[j].node.handle_revoke_and_ack(ids[i], &msg);
+						},
+						_ => {},
+					}
+				}
+				nodes[i].chain_monitor.added_monitors.lock().unwrap().clear();
+			}
+			if !any {
+				break;
+			}
+		}
+	};
+	// one multi-part payment whose parts all travel over this channel: several HTLCs, one payment hash
+	if cfg.mpp_parts > 0 {
+		let from = rx.below(2) as usize;
+		let mut parts: Vec<u64> = Vec::new();
+		while parts.len() < cfg.mpp_parts {
+			let sat = if rx.below(6) == 0 { 1 + rx.below(352) } else { 1_000 + rx.below(9_000) };
+			if sat != 330 && sat != 240 && used_amounts.insert(sat) {
+				parts.push(sat * 1000 + rx.below(1000));
+			}
+		}
+		let same_dir: u64 = htlcs.iter().filter(|h| h.from == from).map(|h| h.amt_msat / 1000 + 1).sum();
+		let total: u64 = parts.iter().sum();
+		if same_dir + total / 1000 < 88_000 && htlcs.iter().filter(|h| h.from == from).count() + parts.len() <= 9 {
+			let expiry = nodes[from].best_block_info().1 + TEST_FINAL_CLTV + 1;
+			let (mut route, hash, preimage, secret) = get_route_and_payment_hash!(nodes[from], nodes[1 - from], total);
+			let path = route.paths[0].clone();
+			route.paths = parts.iter().map(|a| { let mut p = path.clone(); p.hops[0].fee_msat = *a; p }).collect();
+			nodes[from].node.send_payment_with_route(route, hash, RecipientOnionFields::secret_only(secret, total), PaymentId(hash.0)).unwrap();
+			pump();
+			nodes[1 - from].node.process_pending_htlc_forwards();
+			pump();
+			let claimable = nodes[1 - from].node.get_and_clear_pending_events().iter().any(|e| matches!(e, Event::PaymentClaimable { .. }));
+			if !claimable {
+				return fail("harness: multi-part payment over one channel did not become claimable", format!("parts {:?}", parts));
+			}
+			let know = match rx.below(6) {
+				0 => Know::Never,
+				1 => Know::BeforeClose,
+				2 => Know::OnBroadcast,
+				_ => Know::After(rx.below(3) as u32 * rx.below(30) as u32),
+			};
+			for a in parts.iter() {
+				htlcs.push(Htlc { from, amt_msat: *a, hash, preimage, expiry, know, vout: None, claim_tried: false });
+			}
+		} else {
+			cfg.mpp_parts = 0;
+		}
+	}
+	// a second channel between the same nodes, closed during the scenario: its outputs mature in
+	// windows overlapping the first channel's, all of them go through one OutputSweeper per node
+	let scid1 = nodes[0].node.list_channels().iter().find(|ch| ch.channel_id == chan_id).and_then(|ch| ch.short_channel_id);
+	let chan2 = if cfg.second_chan {
+		let (_, _, id2, ftx2) = create_announced_chan_between_nodes_with_value(&nodes, 0, 1, 400_000, 150_000_000);
+		Some((id2, ftx2))
+	} else {
+		None
+	};
+	let closer2 = rx.below(2) as usize;
+	let close2_after = rx.below(8) as u32;
 	let mut c = cfg.closer;
 	let p = 1 - c;
 	// the commitment that will confirm
@@ -344,7 +469,10 @@ fn scenario(seed: u64, mode_thorough: bool, trace: bool, descr: &mut String) -> 
 	if cfg.prev {
 		// one more update, of which the closer's revocation never reaches the peer: the peer then
 		// sees the closer's previous, still unrevoked commitment confirm
-		let (route, hash, _preimage, secret) = get_route_and_payment_hash!(nodes[p], nodes[c], 2_345_678);
+		let (mut route, hash, _preimage, secret) = get_route_and_payment_hash!(nodes[p], nodes[c], 2_345_678);
+		if let Some(scid) = scid1 {
+			route.paths[0].hops[0].short_channel_id = scid;
+		}
 		nodes[p]
 			.node
 			.send_payment_with_route(route, hash, RecipientOnionFields::secret_only(secret, 2_345_678), PaymentId(hash.0))
@@ -358,9 +486,12 @@ fn scenario(seed: u64, mode_thorough: bool, trace: bool, descr: &mut String) -> 
 	}
 	// preimages known before the close (the claim messages never reach the peer)
 	let mut knows = [BTreeSet::<PaymentHash>::new(), BTreeSet::<PaymentHash>::new()];
+	let mut claimed_hashes: BTreeSet<PaymentHash> = BTreeSet::new();
 	for h in htlcs.iter_mut() {
 		if h.know == Know::BeforeClose {
-			nodes[1 - h.from].node.claim_funds(h.preimage);
+			if claimed_hashes.insert(h.hash) {
+				nodes[1 - h.from].node.claim_funds(h.preimage);
+			}
 			h.claim_tried = true;
 		}
 	}
@@ -400,6 +531,34 @@ fn scenario(seed: u64, mode_thorough: bool, trace: bool, descr: &mut String) -> 
 	w.add_outputs(&reserves, Some(1));
 	w.add_outputs(&funding_tx, Some(1));
 	w.confirmed.insert(funding_tx.compute_txid(), 1);
+	let funding2_outpoint = chan2.as_ref().map(|(_, t)| OutPoint { txid: t.compute_txid(), vout: 0 });
+	if let Some((_, t)) = chan2.as_ref() {
+		w.add_outputs(t, Some(1));
+		w.confirmed.insert(t.compute_txid(), 1);
+	}
+	// one real OutputSweeper per node, fed every block and every SpendableOutputs event of every channel
+	let sweep_bc = [SweepBroadcaster(Mutex::new(Vec::new())), SweepBroadcaster(Mutex::new(Vec::new()))];
+	let sweep_store = [TestStore::new(false), TestStore::new(false)];
+	let sweep_dest = [ChangeDest(ScriptBuf::new_p2wsh(&<bitcoin::WScriptHash as bitcoin::hashes::Hash>::from_byte_array([0x51; 32]))), ChangeDest(ScriptBuf::new_p2wsh(&<bitcoin::WScriptHash as bitcoin::hashes::Hash>::from_byte_array([0x52; 32])))];
+	let fixed_fee = FixedFee;
+	let sweepers: Vec<_> = (0..2)
+		.map(|n| {
+			OutputSweeperSync::new(
+				BlockLocator::new(nodes[n].best_block_hash(), nodes[n].best_block_info().1),
+				&sweep_bc[n],
+				&fixed_fee,
+				None::<&lightning::util::test_utils::TestChainSource>,
+				&nodes[n].keys_manager.backing,
+				&sweep_dest[n],
+				&sweep_store[n],
+				nodes[n].logger,
+			)
+		})
+		.collect();
+	let mut sweep_txids: BTreeSet<Txid> = BTreeSet::new();
+	// every descriptor a node ever got, of every channel
+	let mut all_desc: [Vec<(OutPoint, SpendableOutputDescriptor)>; 2] = [Vec::new(), Vec::new()];
+	let mut chan2_closed = false;
 	let wallet_scripts: Vec<ScriptBuf> =
 		(0..2).map(|i| nodes[i].wallet_source.get_change_script().unwrap()).collect();
 	nodes[0].tx_broadcaster.txn_broadcast();
@@ -471,18 +630,29 @@ fn scenario(seed: u64, mode_thorough: bool, trace: bool, descr: &mut String) -> 
 		Some(chan_inputs.iter().map(|(_, g)| *g).sum())
 	}
 
+	let mut iteration = 0u32;
 	loop {
+		iteration += 1;
+		if let (Some((id2, _)), Some(ch)) = (chan2.as_ref(), commit_height) {
+			if !chan2_closed && w.height >= ch + close2_after {
+				chan2_closed = true;
+				let _ = nodes[closer2].node.force_close_broadcasting_latest_txn(id2, &ids[1 - closer2], "closing the second channel".to_string());
+			}
+		}
 		// ------------------------------------------------------------ per step: collect what the nodes did
 		for n in 0..2 {
 			// late preimages
-			if let Some(ch) = commit_height {
-				for h in htlcs.iter_mut() {
-					if let Know::After(k) = h.know {
-						if 1 - h.from == n && !h.claim_tried && w.height >= ch + k {
-							nodes[n].node.claim_funds(h.preimage);
-							h.claim_tried = true;
-						}
+			for h in htlcs.iter_mut() {
+				let due = match (h.know, commit_height) {
+					(Know::After(k), Some(ch)) => w.height >= ch + k,
+					(Know::OnBroadcast, _) => iteration >= 1,
+					_ => false,
+				};
+				if due && 1 - h.from == n && !h.claim_tried {
+					if claimed_hashes.insert(h.hash) {
+						nodes[n].node.claim_funds(h.preimage);
 					}
+					h.claim_tried = true;
 				}
 			}
 			let mut new_txs: Vec<Transaction> = Vec::new();
@@ -519,8 +689,14 @@ fn scenario(seed: u64, mode_thorough: bool, trace: bool, descr: &mut String) -> 
 							}
 							nodes[n].bump_tx_handler.handle_event(&b);
 						},
-						Event::SpendableOutputs { outputs, .. } => {
+						Event::SpendableOutputs { outputs, channel_id: ev_chan, counterparty_node_id: ev_cp } => {
 							st.spendable_events += 1;
+							let is_chan2 = chan2.as_ref().map(|(id2, _)| Some(*id2) == ev_chan).unwrap_or(false);
+							if judged(n, c) {
+								if sweepers[n].track_spendable_outputs(outputs.clone(), ev_chan, ev_cp, false, None).is_err() {
+									return fail("(e) OutputSweeper refused to track spendable outputs", format!("node {}", n));
+								}
+							}
 							for d in outputs {
 								let (op, val) = match &d {
 									SpendableOutputDescriptor::StaticOutput { outpoint, output, .. } => (outpoint.into_bitcoin_outpoint(), output.value),
@@ -530,8 +706,12 @@ fn scenario(seed: u64, mode_thorough: bool, trace: bool, descr: &mut String) -> 
 								if !judged(n, c) {
 									continue;
 								}
-								if !desc_outpoints[n].insert(op) {
+								if all_desc[n].iter().any(|(o, _)| *o == op) {
 									return fail("(e) the same output was announced as spendable twice", format!("node {} {}", n, short(&op)));
+								}
+								all_desc[n].push((op, d.clone()));
+								if !is_chan2 {
+									desc_outpoints[n].insert(op);
 								}
 								match w.outputs.get(&op) {
 									Some((o, Some(_))) if o.value == val && w.unspent(&op) => {},
@@ -562,11 +742,57 @@ fn scenario(seed: u64, mode_thorough: bool, trace: bool, descr: &mut String) -> 
 									return fail("(e) spendable output announced before it can be spent", format!("node {} {}: {}", n, short(&op), e));
 								}
 								st.spend_checked += 1;
+								if is_chan2 {
+									continue;
+								}
 								match gross_of(&w, &ctxid, &htlc_by_vout, &htlcs, &op) {
 									Some(g) => handed_out[n] += g,
 									None => return fail("(e) spendable output does not descend from the channel", format!("node {} {}", n, short(&op))),
 								}
 								descriptors[n].push(d);
+							}
+							// (e) all descriptors still unspent, of ALL channels, in one call: in several orders and
+							// in a random subset (this is what an OutputSweeper does)
+							if judged(n, c) {
+								let pending: Vec<&(OutPoint, SpendableOutputDescriptor)> = all_desc[n].iter().filter(|(o, _)| w.unspent(o)).collect();
+								if pending.len() >= 2 {
+									for variant in 0..4 {
+										let mut order: Vec<&(OutPoint, SpendableOutputDescriptor)> = pending.clone();
+										match variant {
+											0 => {},
+											1 => order.reverse(),
+											_ => {
+												for i in (1..order.len()).rev() {
+													let j = rx.below(i as u64 + 1) as usize;
+													order.swap(i, j);
+												}
+												if variant == 3 {
+													let keep = 2 + rx.below(order.len() as u64 - 1) as usize;
+													order.truncate(keep);
+												}
+											},
+										}
+										let refs: Vec<&SpendableOutputDescriptor> = order.iter().map(|x| &x.1).collect();
+										let tx = match nodes[n].keys_manager.backing.spend_spendable_outputs(&refs, Vec::new(), ScriptBuf::new_op_return(&[0u8; 4]), 253, None, &secp) {
+											Ok(t) => t,
+											Err(()) => {
+												return fail(
+													"(e) spend_spendable_outputs fails on a batch of descriptors that are spendable one by one",
+													format!("node {} batch {:?}", n, order.iter().map(|x| format!("{}{}", short(&x.0), match &x.1 { SpendableOutputDescriptor::DelayedPaymentOutput(_) => "(delayed)", SpendableOutputDescriptor::StaticPaymentOutput(_) => "(static-payment)", _ => "(static)" })).collect::<Vec<_>>()),
+												)
+											},
+										};
+										let ins: BTreeSet<OutPoint> = tx.input.iter().map(|i| i.previous_output).collect();
+										let want: BTreeSet<OutPoint> = order.iter().map(|x| x.0).collect();
+										if ins != want {
+											return fail("(e) batch spend does not spend exactly the descriptors' outpoints", format!("node {}: {:?} vs {:?}", n, ins, want));
+										}
+										if let Err(e) = tx.verify(|o| w.outputs.get(o).map(|x| x.0.clone())) {
+											return fail("(e) batch spend of spendable outputs is not consensus-valid", format!("node {}: {:?}", n, e));
+										}
+										st.spend_checked += 1;
+									}
+								}
 							}
 						},
 						_ => {},
@@ -575,6 +801,18 @@ fn scenario(seed: u64, mode_thorough: bool, trace: bool, descr: &mut String) -> 
 			}
 			drain(n, &mut knows);
 			new_txs.extend(nodes[n].tx_broadcaster.txn_broadcast());
+			if judged(n, c) {
+				if sweepers[n].regenerate_and_broadcast_spend_if_necessary().is_err() {
+					return fail(
+						"(e) the OutputSweeper cannot sweep the spendable outputs it tracks",
+						format!("node {} at height {}: tracked {:?}", n, w.height, sweepers[n].tracked_spendable_outputs().iter().map(|o| short(&desc_op(&o.descriptor))).collect::<Vec<_>>()),
+					);
+				}
+				for tx in sweep_bc[n].0.lock().unwrap().drain(..) {
+					sweep_txids.insert(tx.compute_txid());
+					new_txs.push(tx);
+				}
+			}
 			// ---------------------------------------------------------- judge what was broadcast
 			let mut step_spent: HashMap<OutPoint, Txid> = HashMap::new();
 			let mut seen_in_step = BTreeSet::new();
@@ -602,7 +840,8 @@ fn scenario(seed: u64, mode_thorough: bool, trace: bool, descr: &mut String) -> 
 						tx.weight().to_wu()
 					);
 				}
-				let is_commitment = tx.input.len() == 1 && tx.input[0].previous_output == funding_outpoint;
+				let is_commitment = tx.input.len() == 1 && (tx.input[0].previous_output == funding_outpoint || Some(tx.input[0].previous_output) == funding2_outpoint);
+				let is_sweep = sweep_txids.contains(&txid);
 				// inputs spent by a transaction confirmed in the block just processed make the
 				// broadcast stale (chain notifications are not atomic), not wrong
 				let mut stale = false;
@@ -691,7 +930,7 @@ fn scenario(seed: u64, mode_thorough: bool, trace: bool, descr: &mut String) -> 
 					let has_wallet_input = tx.input.iter().any(|i| {
 						w.outputs.get(&i.previous_output).map(|o| wallet_scripts.contains(&o.0.script_pubkey)).unwrap_or(false)
 					});
-					if !already && !is_commitment && !has_wallet_input && !stale {
+					if !already && !is_commitment && !has_wallet_input && !stale && !is_sweep {
 						let fee_t = w.fee(&tx).unwrap_or(0);
 						let wt = tx.weight().to_wu();
 						for m in w.mempool.iter() {
@@ -780,7 +1019,15 @@ fn scenario(seed: u64, mode_thorough: bool, trace: bool, descr: &mut String) -> 
 						_ => "X0".to_string(),
 					}).collect();
 					obs.sort();
-					mtrace[n].push(format!("O{}#{}", obs.join("."), handed_out[n]));
+					// which HTLC outputs are being claimed right now by a valid transaction of this node
+					let mut covered: Vec<String> = Vec::new();
+					for (vout, hi) in htlc_by_vout.iter() {
+						let op = OutPoint { txid: ctxid, vout: *vout };
+						if w.unspent(&op) && w.mempool.iter().any(|m| m.owner == n && m.tx.input.iter().any(|i| i.previous_output == op) && w.valid_now(&m.tx)) {
+							covered.push(hi.to_string());
+						}
+					}
+					mtrace[n].push(format!("O{}#{}#{}", obs.join("."), handed_out[n], covered.join(".")));
 				}
 				let mut sum = 0u64;
 				for b in bals.iter() {
@@ -836,8 +1083,18 @@ fn scenario(seed: u64, mode_thorough: bool, trace: bool, descr: &mut String) -> 
 		}
 
 		// ------------------------------------------------------------ termination
+		let sweep_pending = |n: usize| -> Vec<String> {
+			sweepers[n]
+				.tracked_spendable_outputs()
+				.iter()
+				.filter(|o| !matches!(o.status, OutputSpendStatus::PendingThresholdConfirmations { .. }))
+				.map(|o| short(&desc_op(&o.descriptor)))
+				.collect()
+		};
 		let all_done = commit_height.is_some()
 			&& (0..2).all(|n| nodes[n].chain_monitor.chain_monitor.get_monitor(chan_id).unwrap().get_claimable_balances().is_empty())
+			&& chan2.as_ref().map(|(id2, _)| chan2_closed && (0..2).all(|n| nodes[n].chain_monitor.chain_monitor.get_monitor(*id2).unwrap().get_claimable_balances().is_empty())).unwrap_or(true)
+			&& (0..2).all(|n| !judged(n, c) || sweep_pending(n).is_empty())
 			&& !w.mempool.iter().any(|m| w.valid_now(&m.tx));
 		if all_done {
 			idle_blocks += 1;
@@ -847,6 +1104,9 @@ fn scenario(seed: u64, mode_thorough: bool, trace: bool, descr: &mut String) -> 
 		}
 		if w.height - start_height > max_blocks {
 			let b: Vec<_> = (0..2).map(|n| nodes[n].chain_monitor.chain_monitor.get_monitor(chan_id).unwrap().get_claimable_balances()).collect();
+			if b.iter().all(|x| x.is_empty()) {
+				return fail("(e) the OutputSweeper never got the outputs it tracks spent and confirmed", format!("after {} blocks: still pending {:?} {:?}", max_blocks, sweep_pending(0), sweep_pending(1)));
+			}
 			return fail("(d) claimable balances never drained", format!("after {} blocks: {:?}", max_blocks, b));
 		}
 
@@ -910,6 +1170,7 @@ fn scenario(seed: u64, mode_thorough: bool, trace: bool, descr: &mut String) -> 
 		for n in 0..2 {
 			let block = create_dummy_block(nodes[n].best_block_hash(), new_height, chosen.clone());
 			connect_block(&nodes[n], &block);
+			sweepers[n].block_connected(&block, new_height);
 		}
 		w.height = new_height;
 		st.blocks += 1;
@@ -982,7 +1243,11 @@ fn scenario(seed: u64, mode_thorough: bool, trace: bool, descr: &mut String) -> 
 					mains[n] = o[n].map(|v| OutPoint { txid: ctxid, vout: v });
 				}
 				for n in 0..2 {
-					let hs: Vec<String> = htlcs.iter().map(|h| format!("{}.{}.{}.{}", (h.from == n) as u8, h.amt_msat / 1000, h.expiry, h.vout.is_some() as u8)).collect();
+					let mut hash_ids: Vec<PaymentHash> = Vec::new();
+					let hs: Vec<String> = htlcs.iter().map(|h| {
+						let hid = match hash_ids.iter().position(|x| *x == h.hash) { Some(p) => p, None => { hash_ids.push(h.hash); hash_ids.len() - 1 } };
+						format!("{}.{}.{}.{}.{}", (h.from == n) as u8, h.amt_msat / 1000, h.expiry, h.vout.is_some() as u8, hid)
+					}).collect();
 					for (hi, h) in htlcs.iter().enumerate() {
 						if h.from != n && knows[n].contains(&h.hash) {
 							mknown[n].insert(hi);
@@ -1056,7 +1321,7 @@ fn scenario(seed: u64, mode_thorough: bool, trace: bool, descr: &mut String) -> 
 			owned.insert(m);
 		}
 		for (txid, _) in w.confirmed.iter() {
-			if w.owner.get(txid) != Some(&n) || *txid == ctxid {
+			if w.owner.get(txid) != Some(&n) || *txid == ctxid || sweep_txids.contains(txid) {
 				continue;
 			}
 			let tx = &w.txs[txid];
@@ -1074,7 +1339,7 @@ fn scenario(seed: u64, mode_thorough: bool, trace: bool, descr: &mut String) -> 
 				}
 				// second stage outputs claimed onwards by the node itself are not final
 				if let Some((by, _)) = w.spent.get(&op) {
-					if w.owner.get(by) == Some(&n) {
+					if w.owner.get(by) == Some(&n) && !sweep_txids.contains(by) {
 						continue;
 					}
 				}
@@ -1088,6 +1353,19 @@ fn scenario(seed: u64, mode_thorough: bool, trace: bool, descr: &mut String) -> 
 				"(e) SpendableOutputs do not cover exactly the outputs the node owns on chain",
 				format!("node {}: never announced {:?}, announced but not owned {:?}", n, missing, extra),
 			);
+		}
+		// the real OutputSweeper tracked exactly the announced descriptors (of every channel) and each of
+		// them was spent by one of its transactions, confirmed on chain
+		let tracked: BTreeSet<OutPoint> = sweepers[n].tracked_spendable_outputs().iter().map(|o| desc_op(&o.descriptor)).collect();
+		let announced: BTreeSet<OutPoint> = all_desc[n].iter().map(|x| x.0).collect();
+		if tracked != announced {
+			return fail("(e) the OutputSweeper does not track exactly the announced spendable outputs", format!("node {}: {:?} vs {:?}", n, tracked, announced));
+		}
+		for (op, _) in all_desc[n].iter() {
+			match w.spent.get(op) {
+				Some((by, _)) if sweep_txids.contains(by) && w.owner.get(by) == Some(&n) => {},
+				other => return fail("(e) a spendable output was not swept by the node's OutputSweeper", format!("node {} {}: {:?}", n, short(op), other)),
+			}
 		}
 		// all of them together, in one sweep
 		if !descriptors[n].is_empty() {
